@@ -21,14 +21,17 @@ from ..remotelab import Watchdog, read_remote_logs
 from ..sims import H
 
 PROP = "C14"
+HEADLINE_GEN = ["gen_scenarios", "gen_faults_fired", "gen_faults_with_other_simulators_in_flight", "gen_contained"]
 HEADLINE = ["fault_cases", "faults_fired", "kind_exit", "kind_raise", "kind_close", "kind_local_raise",
-            "contained", "survivors_checked", "processes_checked", "max_elapsed_ms"]
+            "contained", "survivors_checked", "processes_checked", "max_elapsed_ms"] + HEADLINE_GEN
 
 
 def plan(tier, seed, scale):
     q = tier == "quick"
     return {"n_cases": 1, "until": 3 if q else 4, "catalogue": [0, 1, 2, 4, 5, 6] if q else [0, 1, 2, 3, 4, 5, 6],
-            "repeat": 1 if q else 3, "timeout_s": 1500 if q else 10800}
+            "repeat": 1 if q else 3, "timeout_s": 1500 if q else 10800,
+            "gen_scenarios": int((96 if q else 2400) * scale), "gen_max_requests": 8 if q else 14,
+            "gen_profiles": ["core", "flat", "events", "data", "par", "tiny"]}
 
 
 def sim(sid, typ, ins, outs, **beh):
@@ -303,6 +306,152 @@ def judge(scn: dict, remote: List[str], fault: dict, out: dict) -> List[dict]:
     return v
 
 
+
+GEN_HOWS = ["raise", "raise_TypeError", "raise_ValueError", "raise_KeyError", "raise_ConnectionError",
+            "raise_AssertionError"]
+
+
+def judge_generated(scn: dict, tr: dict, fault: dict) -> List[dict]:
+    """In-process generated scenario under the controlled loop: fault = crash fault of one simulator."""
+    ev = tr["events"]
+    fidx = next((e["i"] for e in ev if e.get("op") == "fault"), None)
+    if fidx is None:
+        return [{"kind": "_not_fired"}]
+    desc = {"fault": fault, "engine": "generated_inprocess"}
+    v: List[dict] = []
+    o = tr["outcome"]
+    if o["kind"] == "ok":
+        v.append(dict(desc, kind="run_returned_normally_without_error"))
+    elif o.get("type") in ("Deadlock", "Livelock", "BudgetExceeded"):
+        v.append(dict(desc, kind="run_hangs_after_fault", msg=f"{o.get('type')}: {o.get('msg', '')[:160]}"))
+        return v
+    if tr.get("shutdown_error"):
+        v.append(dict(desc, kind="shutdown_failed", error=tr["shutdown_error"]))
+    fin: Dict[str, int] = Counter(e["sid"] for e in ev if e.get("op") == "finalize")
+    for s_ in scn["sims"]:
+        sid = s_["sid"]
+        if sid == fault["sid"]:
+            if fin.get(sid, 0) > 1:
+                v.append(dict(desc, kind="failed_simulator_finalized_more_than_once", finalize_calls=fin[sid]))
+            continue
+        if fin.get(sid, 0) != 1:
+            v.append(dict(desc, kind="survivor_not_finalized_exactly_once", survivor=sid, finalize_calls=fin.get(sid, 0),
+                          survivor_remote=False))
+    seen_fin = set()
+    for e in ev:
+        s2 = e.get("sid")
+        if e.get("op") == "finalize":
+            seen_fin.add(s2)
+        elif s2 in seen_fin and e.get("op") in ("call", "ret", "async", "async_ret"):
+            v.append(dict(desc, kind="request_after_finalize" if e["op"] == "call" else "simulator_active_after_finalize",
+                          sid=s2, request=e.get("kind"), time=e.get("time"), op=e["op"]))
+            break
+    # the failed simulator gets no further request after the failing one
+    later = [e for e in ev if e["i"] > fidx and e.get("sid") == fault["sid"] and e.get("op") == "call"]
+    if later:
+        v.append(dict(desc, kind="failed_simulator_got_further_requests",
+                      requests=[(e["kind"], e.get("time")) for e in later][:4]))
+    if not tr.get("loop_closed", True):
+        v.append(dict(desc, kind="event_loop_not_closed"))
+    if tr.get("pending_at_close"):
+        v.append(dict(desc, kind="pending_tasks_at_loop_close", tasks=sorted(set(tr["pending_at_close"]))[:6],
+                      n=len(tr["pending_at_close"])))
+    if tr.get("loop_unhandled"):
+        v.append(dict(desc, kind="unhandled_error_in_event_loop", messages=tr["loop_unhandled"][:3]))
+    na = [w for w in tr.get("pywarnings", []) + tr.get("late_warnings", []) if "never awaited" in w]
+    if na:
+        v.append(dict(desc, kind="coroutine_never_awaited", warnings=na[:3]))
+    return v
+
+
+def run_generated_case(scn: dict, sched: dict) -> dict:
+    import gc
+    import warnings
+    from ..build import run_case
+    with warnings.catch_warnings(record=True) as wl:
+        warnings.simplefilter("always")
+        tr = run_case(scn, dict(sched, keep_tasks=True))
+        gc.collect()
+    tr["late_warnings"] = [f"{w.category.__name__}: {str(w.message)[:200]}" for w in wl]
+    return tr
+
+
+def run_generated(job: dict, res: dict, viol) -> None:
+    """Engine A part: generated scenarios, every (simulator, request index < cap), early and late failure,
+    rotating exception class and schedule policy."""
+    from ..gen import PROFILES, gen_scenario
+    from ._enga import POLICY_CYCLE, order_hash, scn_hash
+    C = res["counters"]
+    W, w = job["nworkers"], job["windex"]
+    seed = job["seed"]
+    for i in range(w, job["gen_scenarios"], W):
+        pname = job["gen_profiles"][i % len(job["gen_profiles"])]
+        scn = gen_scenario(H(seed, "c14gen", pname, i) % (1 << 48), PROFILES[pname])
+        scn["until"] = min(scn["until"], 4)
+        base = run_generated_case(scn, {"policy": "random", "seed": i})
+        res["evaluations"] += 1
+        if base["outcome"]["kind"] != "ok":
+            C["gen_baseline_not_ok"] += 1      # e.g. C05's open findings; nothing to inject into
+            continue
+        C["gen_scenarios"] += 1
+        if base.get("pending_at_close") or base.get("loop_unhandled"):
+            viol({"kind": "fault_free_run_pending_tasks_at_loop_close", "engine": "generated_inprocess",
+                  "tasks": (base.get("pending_at_close") or base.get("loop_unhandled"))[:4]},
+                 {"generated": {"scn": scn, "sched": {"policy": "random", "seed": i}, "fault": None}})
+        nreq: Dict[str, int] = Counter(e["sid"] for e in base["events"] if e.get("op") == "call")
+        case = 0
+        for s_ in scn["sims"]:
+            sid = s_["sid"]
+            for r in range(min(nreq.get(sid, 0), job["gen_max_requests"])):
+                for late in (False, True):
+                    case += 1
+                    how = GEN_HOWS[(i + case) % len(GEN_HOWS)]
+                    fault = {"sid": sid, "r": r, "how": how, "late": late}
+                    scn_f = dict(scn)
+                    scn_f["sims"] = [dict(x, fault={"mode": "crash", "at_request": r, "how": how, "late": late})
+                                     if x["sid"] == sid else x for x in scn["sims"]]
+                    sched = dict(POLICY_CYCLE[(i + case) % len(POLICY_CYCLE)])
+                    sched["seed"] = H(seed, "c14gen", i, case) % (1 << 31)
+                    tr = run_generated_case(scn_f, sched)
+                    res["evaluations"] += 1
+                    C["gen_fault_cases"] += 1
+                    vs = judge_generated(scn_f, tr, fault)
+                    if vs and vs[0]["kind"] == "_not_fired":
+                        C["gen_fault_not_reached"] += 1
+                        continue
+                    C["gen_faults_fired"] += 1
+                    C["gen_late" if late else "gen_early"] += 1
+                    fk = next((e.get("kind") for e in tr["events"] if e.get("op") == "fault"), "?")
+                    C["gen_fault_in_" + str(fk)] += 1
+                    C["gen_how_" + how] += 1
+                    C["gen_survivors_checked"] += len(scn["sims"]) - 1
+                    fi = next(e["i"] for e in tr["events"] if e.get("op") == "fault")
+                    open_calls = Counter()
+                    for e in tr["events"]:
+                        if e["i"] >= fi:
+                            break
+                        if e.get("op") == "call" and e.get("kind") in ("step", "get_data", "setup_done"):
+                            open_calls[e["sid"]] += 1
+                        elif e.get("op") == "ret" and e.get("kind") in ("step", "get_data", "setup_done"):
+                            open_calls[e["sid"]] -= 1
+                    n_inflight = sum(1 for s2, n2 in open_calls.items() if n2 > 0 and s2 != sid)
+                    if n_inflight:
+                        C["gen_faults_with_other_simulators_in_flight"] += 1
+                    res["hashes"].add(H(scn_hash(scn), sid, r, how, late, order_hash(tr["events"])) % (1 << 52))
+                    if not vs:
+                        C["gen_contained"] += 1
+                        if len(res["samples"]) < 3 and n_inflight and case % 11 == 0:
+                            res["samples"].append({"engine": "generated_inprocess", "fault": fault, "fault_in": fk,
+                                                   "others_in_flight_at_fault": n_inflight,
+                                                   "outcome": {k2: tr["outcome"].get(k2) for k2 in ("kind", "type", "msg")},
+                                                   "finalize_calls": dict(Counter(e["sid"] for e in tr["events"]
+                                                                                  if e.get("op") == "finalize")),
+                                                   "pending_tasks_at_loop_close": tr.get("pending_at_close")})
+                    for vv in vs:
+                        rs = dict(sched, orig_policy=sched["policy"], policy="replay", schedule=tr["schedule"])
+                        viol(vv, {"generated": {"scn": scn_f, "sched": rs, "fault": fault}})
+
+
 def run_slice(job: dict) -> dict:
     from .. import findings
     KF = findings.load()
@@ -389,6 +538,7 @@ def run_slice(job: dict) -> dict:
                                    "process_states_after_grace": out["proc_states"],
                                    "pending_tasks_at_loop_close": out["pending_at_close"],
                                    "violations": [x["kind"] for x in vs]})
+    run_generated(job, res, viol)
     res["hashes"] = list(res["hashes"])
     res["counters"] = dict(C)
     return res
@@ -415,6 +565,13 @@ def judge_clean(scn, remote, out) -> List[dict]:
 
 def replay(rep: dict) -> List[dict]:
     r = rep["replay"]
+    if "generated" in r:
+        g = r["generated"]
+        tr = run_generated_case(g["scn"], dict(g["sched"]))
+        if g["fault"] is None:
+            return [{"kind": "fault_free_run_pending_tasks_at_loop_close", "tasks": tr.get("pending_at_close")}] \
+                if tr.get("pending_at_close") or tr.get("loop_unhandled") else []
+        return [v for v in judge_generated(g["scn"], tr, g["fault"]) if v["kind"] != "_not_fired"]
     scn, remote = catalogue(r["catalogue"], r["until"])
     if r["fault"] is None:
         return judge_clean(scn, remote, run_fault_case(scn, remote, None))
@@ -432,6 +589,13 @@ def decide(m, tier):
         reasons.append("more than 3 non-reproducible hangs (loaded machine?)")
     if c.get("baseline_failed", 0):
         reasons.append("a fault-free baseline run failed")
+    if c.get("gen_faults_fired", 0) < 500:
+        reasons.append("fewer than 500 faults fired in generated in-process scenarios")
+    if c.get("gen_faults_with_other_simulators_in_flight", 0) < 100:
+        reasons.append("fewer than 100 generated faults fired while another simulator had a request in flight")
+    for k in ("gen_fault_in_setup_done", "gen_fault_in_step", "gen_fault_in_get_data", "gen_early", "gen_late"):
+        if c.get(k, 0) < 30:
+            reasons.append(f"{k} < 30")
     return ("inconclusive" if reasons else "held"), reasons
 
 
@@ -448,7 +612,14 @@ def evidence(m, tier, seed):
                 "closed, no task pending at loop.close(), no unclosed socket/transport ResourceWarning, no never-awaited "
                 "coroutine, no error reported to the loop's exception handler, no request "
                 "after finalize; distinct_nontrivial = distinct (scenario, simulator, request index, kind) whose "
-                "fault actually fired",
+                "fault actually fired.  Second part (counters gen_*): generated scenarios (6 profiles, with groups, weak and "
+                "time-shifted connections, async agents) in-process under the controlled loop: a fault-free run counts the "
+                "requests; then every (simulator, request index < cap) fails once at the beginning of the request and once "
+                "when its reply is due (other simulators may have started or finished requests in between), with a rotating "
+                "exception class and schedule policy; expected: run() raises (no exact deadlock/livelock), survivors "
+                "finalized exactly once, the failed simulator gets no further request, no request to and no activity of "
+                "a finalized simulator, no task pending at loop.close() (the harness cancels nothing), nothing reported "
+                "to the loop's exception handler, no never-awaited coroutine",
         "exhaustive": True,
         "obligations": m["counters"].get("faults_fired", 0),
     }, "assumptions": ["'promptly' = within the 40 s watchdog; elapsed times are recorded, not judged",
